@@ -67,6 +67,7 @@ type sc struct {
 	inLoop                         bool // lexically inside a for body of the current function
 	self                           *fnsig // the enclosing recursive function (counter n visible), nil otherwise
 	selfLeft                       *int   // remaining budget of extra self-call sites
+	selfOften                      bool
 }
 
 func (s *sc) clone() *sc {
@@ -169,7 +170,7 @@ func (g *G) intE(s *sc, d int) *N {
 }
 
 func (g *G) intE0(s *sc, d int) *N {
-	if s.self != nil && *s.selfLeft > 0 && d > 0 && g.r(6) == 0 {
+	if s.self != nil && *s.selfLeft > 0 && d > 0 && (g.r(6) == 0 || (s.selfOften && g.r(3) == 0)) {
 		// a guarded self call at an arbitrary (generally non-tail) position
 		*s.selfLeft--
 		f := s.self
@@ -691,7 +692,15 @@ func (g *G) stmt(s *sc, d int) *N {
 			}
 			body := g.stmts(ns, d-2, false)
 			body = append(g.strictProbes(fn), body...)
-			fn.A = append(body, &N{K: "cond", A: []*N{Call("<=", Var("n"), Int(0)), g.intE(ns, d-2), rec}})
+			if g.r(2) == 0 {
+				// free-form: the last expression is arbitrary, with guarded self
+				// calls wherever the generator puts them (tail or not)
+				left = 3
+				ns.selfOften = true
+				fn.A = append(body, g.tailCtx(ns, d-1, 1+g.r(3)))
+			} else {
+				fn.A = append(body, &N{K: "cond", A: []*N{Call("<=", Var("n"), Int(0)), g.intE(ns, d-2), rec}})
+			}
 			sig.n = len(fn.Ps)
 			g.NClosures++
 			s.fns = append(s.fns, sig)
@@ -886,4 +895,62 @@ func (g *G) strictProbes(fn *N) []*N {
 		out = append(out, &N{K: "tr", I: g.trn, A: []*N{Var(p)}})
 	}
 	return out
+}
+
+// selfSite: a guarded self call usable as an int expression.
+func (g *G) selfSite(s *sc, d int) *N {
+	f := s.self
+	self := []*N{Var(f.name), Call("-", Var("n"), Int(1))}
+	for i := 1; i < f.n; i++ {
+		if f.clo[i] {
+			self = append(self, g.cloE(s.arg(), d-1))
+		} else {
+			self = append(self, g.intE(s.arg(), d-1))
+		}
+	}
+	g.NSelfAnywhere++
+	return &N{K: "cond", A: []*N{Call("<=", Var("n"), Int(0)), g.lit(), &N{K: "app", A: self}}}
+}
+
+// tailCtx composes tail-position contexts (and/or/cond/let/letseq/begin/
+// newScope) around int expressions; non-final operands and the final one may
+// both contain guarded self calls, so the same function exercises self calls
+// in tail and in non-tail positions of every context.
+func (g *G) tailCtx(s *sc, d int, depth int) *N {
+	x := func() *N {
+		if s.self != nil && g.r(3) == 0 {
+			return g.selfSite(s, d)
+		}
+		return g.intE(s, d-1)
+	}
+	if depth <= 0 {
+		return x()
+	}
+	switch g.r(7) {
+	case 0, 1:
+		k := []string{"and", "or"}[g.r(2)]
+		a := []*N{}
+		for i := g.r(3); i > 0; i-- {
+			a = append(a, x())
+		}
+		return &N{K: k, A: append(a, g.tailCtx(s, d, depth-1))}
+	case 2:
+		a := []*N{}
+		for i := 1 + g.r(2); i > 0; i-- {
+			a = append(a, g.boolE(s, d-1), g.tailCtx(s, d, depth-1))
+		}
+		return &N{K: "cond", A: append(a, g.tailCtx(s, d, depth-1))}
+	case 3, 4:
+		n := &N{K: []string{"let", "letseq"}[g.r(2)]}
+		p := g.pool()
+		n.Ps = []string{p}
+		ns := s.clone()
+		init := x()
+		ns.ints = appendU(ns.ints, p)
+		n.A = []*N{init, g.tailCtx(ns, d, depth-1)}
+		return n
+	case 5:
+		return &N{K: "begin", A: []*N{x(), g.tailCtx(s, d, depth-1)}}
+	}
+	return &N{K: "newscope", A: []*N{x(), g.tailCtx(s.clone(), d, depth-1)}}
 }
